@@ -21,6 +21,82 @@ MUTATORS = ('append', 'extend', 'insert', 'clear', 'update', 'pop', 'remove', 's
 # R1 only 400-class errors escape
 # ---------------------------------------------------------------------------
 
+_CUT_METHODS = {'partition': 2, 'rpartition': 2}      # method -> index of the part after the separator
+_FIND_METHODS = ('find', 'rfind', 'index', 'rindex')
+
+
+def _port_conversion_key(p, f: Func, cons: str, where: str = '') -> str:
+    """A conversion site in parse_host is identified by WHAT it converts, not by how the argument is spelled: an
+    `int(<arg>)` whose argument is, by def-use, the text of the authority after a constant separator S (third part of
+    `host.partition(S)` / `rpartition(S)`, or `host[pos + len(S):]` with `pos = host.find/rfind(S)`) is keyed
+    `int(<port text after 'S'>)` -- the same defect keeps the same key when the slicing is refactored.  Any other
+    shape keeps its source text."""
+    from .c09_helpers import ReachingDefs, node_of, norm
+    params = f.params()
+    if not params:
+        return cons
+    host = params[0]
+    sites = [n for n in walk_no_nested(f.node) if isinstance(n, ast.Call) and isinstance(n.func, ast.Name) and n.func.id == 'int'
+             and len(n.args) == 1 and not n.keywords and norm(n) == cons]
+    if len(sites) > 1 and where:
+        here = [s for s in sites if f.loc(s) == where]       # two sites spelled alike: the one the escape chain ends at
+        sites = here or sites
+    if not sites:
+        return cons
+    cfg = cfg_of(f, p)
+    rd = ReachingDefs(cfg)
+
+    def of_host(e) -> bool:
+        while isinstance(e, ast.Subscript):
+            e = e.value
+        return isinstance(e, ast.Name) and e.id == host
+
+    def sep_const(c) -> Optional[str]:
+        if len(c.args) >= 1 and isinstance(c.args[0], ast.Constant) and isinstance(c.args[0].value, str) and c.args[0].value:
+            return c.args[0].value
+        return None
+
+    def after(e, nid: int, depth: int = 0) -> Optional[str]:
+        """the constant separator the text `e` follows, or None"""
+        if depth > 3:
+            return None
+        if isinstance(e, ast.Name):
+            seps = set()
+            for d in rd.at(nid, e.id):
+                if d.how == 'unpack' and isinstance(d.src, ast.Call) and isinstance(d.src.func, ast.Attribute) \
+                        and d.src.func.attr in _CUT_METHODS and d.index == _CUT_METHODS[d.src.func.attr] and of_host(d.src.func.value):
+                    seps.add(sep_const(d.src))
+                elif d.how == 'assign' and d.value is not None:
+                    seps.add(after(d.value, node_of(cfg, d.stmt), depth + 1))
+                else:
+                    seps.add(None)
+            return seps.pop() if len(seps) == 1 else None
+        if isinstance(e, ast.Subscript) and of_host(e.value) and isinstance(e.slice, ast.Slice) and e.slice.upper is None and e.slice.step is None:
+            lo = e.slice.lower
+            if isinstance(lo, ast.BinOp) and isinstance(lo.op, ast.Add) and isinstance(lo.left, ast.Name) \
+                    and isinstance(lo.right, ast.Constant) and isinstance(lo.right.value, int):
+                seps = set()
+                for d in rd.at(nid, lo.left.id):
+                    v = d.value if d.how == 'assign' else None
+                    if isinstance(v, ast.Call) and isinstance(v.func, ast.Attribute) and v.func.attr in _FIND_METHODS and of_host(v.func.value):
+                        s = sep_const(v)
+                        seps.add(s if s is not None and len(s) == lo.right.value else None)
+                    else:
+                        seps.add(None)
+                return seps.pop() if len(seps) == 1 else None
+        if isinstance(e, ast.Subscript) and isinstance(e.value, ast.Call) and isinstance(e.value.func, ast.Attribute) \
+                and e.value.func.attr in _CUT_METHODS and of_host(e.value.func.value) and isinstance(e.slice, ast.Constant) \
+                and e.slice.value in (_CUT_METHODS[e.value.func.attr], -1):
+            return sep_const(e.value)
+        return None
+
+    keys = set()
+    for s in sites:
+        sep = after(s.args[0], node_of(cfg, s))
+        keys.add("int(<port text after %r>)" % sep if sep is not None else cons)
+    return keys.pop() if len(keys) == 1 else cons
+
+
 def r1_only_4xx(run):
     p = run.project
     E = SiteEscape(p)
@@ -61,8 +137,11 @@ def r1_only_4xx(run):
         o = offenders[org]
         origin = o['chain'][-1]
         f = p.funcs.get(origin.fq, origin.fq)
+        cons = origin.cons
+        if origin.fq == 'falcon.util.uri.parse_host' and isinstance(f, Func):
+            cons = _port_conversion_key(p, f, cons, origin[0])
         run.fail('%s raised here escapes request-header accessors as a non-4xx exception' % '/'.join(sorted(c.rsplit('.', 1)[-1] for c in o['cls'])),
-                 f, origin.cons, where=origin[0],
+                 f, cons, where=origin[0],
                  witness=['reached from: ' + ', '.join(o['acc'])] + ['%s  %s' % (w[0], w[1]) for w in o['chain']],
                  runtime_witness='a request whose header value makes this conversion fail (e.g. Host: example.com:abc); '
                                  'reading any of the listed accessors raises %s instead of a 4xx HTTPError' % '/'.join(sorted(o['cls'])))
@@ -1853,6 +1932,8 @@ def check(run):
     run.rule('R18', r18_cookie_unquote_guard, 'the hoisted test in front of _unquote() holds for every DQUOTE-wrapped cookie value (length 2 upward)', floor=1)
     run.rule('R19', r19_url_composition, 'uri / forwarded_uri / relative_uri / prefix / forwarded_prefix: every stored value is the tabled ordered '
              'concatenation of components on every path (a sibling\'s memoised value stands for its components: no dependence on the read order)', floor=6)
+    run.rule('R20', r20_forwarded_host_sources, 'forwarded_host: ordered sources Forwarded first hop -> X-Forwarded-Host -> netloc, both stacks '
+             '(evaluated over 8 header-presence worlds; the own-authority fallback is netloc, never host)', floor=16)
 
 
 # ---------------------------------------------------------------------------
@@ -2878,3 +2959,218 @@ def r19_url_composition(run):
                                           'the value depends on which accessor was read first and is then memoised' % owner)
     run.extra['c09_r19'] = {'accessors': sorted(done), 'store_sites': n_ob}
     return n_ob
+
+
+# ---------------------------------------------------------------------------
+# R20 forwarded_host: the ordered list of sources, both stacks (evaluation over header-presence worlds)
+# ---------------------------------------------------------------------------
+
+# (Forwarded header, X-Forwarded-Host header) -> the source forwarded_host answers with.  Documented order of preference
+# (docstring: Forwarded, then X-Forwarded-Host, else the request's own host) as the WSGI class implements it; "own host"
+# is the AUTHORITY the request was addressed to, i.e. netloc (Host header with its port): forwarded_uri / forwarded_prefix
+# compose `forwarded_scheme://forwarded_host` + path and, without a proxy header, must reproduce uri / prefix.
+_FH_FORWARDED = ('absent', 'no element', 'first hop has host', 'first hop lacks host')
+_FH_TABLE = {
+    ('first hop has host', True): 'Forwarded[0].host', ('first hop has host', False): 'Forwarded[0].host',   # RFC 7239 5.3, first hop wins
+    ('first hop lacks host', True): 'netloc', ('first hop lacks host', False): 'netloc',   # a Forwarded header is authoritative; own authority
+    ('no element', True): 'netloc', ('no element', False): 'netloc',                       # unusable Forwarded header: own authority
+    ('absent', True): 'X-Forwarded-Host',                                                  # de-facto header, second preference
+    ('absent', False): 'netloc',                                                           # no proxy header: own authority (= uri's)
+}
+_FH_STR_KEEP = ('decode', 'strip', 'lstrip', 'rstrip')
+
+
+class _FHKeyError(Exception):
+    pass
+
+
+class _FHReturn(Exception):
+    def __init__(self, value):
+        Exception.__init__(self)
+        self.value = value
+
+
+class _FwdHostEval:
+    """forwarded_host of one class evaluated in one world: the values are SOURCES (which header / accessor the text
+    comes from), None, the Forwarded list, its first element, or booleans."""
+
+    def __init__(self, f: Func, fwd: str, xfh: bool):
+        self.f, self.fwd, self.xfh = f, fwd, xfh
+
+    def bad(self, what, node=None):
+        raise UnknownIdiom('%s: %s%s' % (self.f.qual, what, (': ' + short(node, 80)) if node is not None else ''))
+
+    def header(self, table_expr, key_expr) -> Optional[str]:
+        t = table_of(self.f, table_expr)
+        if t is None or not isinstance(key_expr, ast.Constant):
+            return None
+        from .c09_helpers import norm_header_key
+        return norm_header_key(t[0], key_expr.value)
+
+    @staticmethod
+    def truthy(v) -> bool:
+        if v[0] == 'bool':
+            return v[1]
+        return v[0] in ('src', 'list', 'hop')
+
+    def present(self, h, node) -> bool:
+        if h == 'forwarded':
+            return self.fwd != 'absent'
+        if h == 'x-forwarded-host':
+            return self.xfh
+        self.bad('the answer depends on another header', node)
+
+    def ev(self, e, env, origin):
+        if isinstance(e, ast.Constant):
+            if e.value is None:
+                return ('none',)
+            if isinstance(e.value, bool):
+                return ('bool', e.value)
+            self.bad('constant operand', e)
+        if isinstance(e, ast.Name):
+            if e.id not in env:
+                self.bad('local not bound on this path', e)
+            return env[e.id]
+        if isinstance(e, ast.BoolOp):
+            v = None
+            for x in e.values:
+                v = self.ev(x, env, origin)
+                if self.truthy(v) != isinstance(e.op, ast.And):
+                    return v
+            return v
+        if isinstance(e, ast.UnaryOp) and isinstance(e.op, ast.Not):
+            return ('bool', not self.truthy(self.ev(e.operand, env, origin)))
+        if isinstance(e, ast.IfExp):
+            return self.ev(e.body if self.truthy(self.ev(e.test, env, origin)) else e.orelse, env, origin)
+        if isinstance(e, ast.Compare) and len(e.ops) == 1:
+            op, right = e.ops[0], e.comparators[0]
+            if isinstance(op, (ast.In, ast.NotIn)):
+                h = self.header(right, e.left)
+                if h is None:
+                    self.bad('membership test', e)
+                return ('bool', self.present(h, e) == isinstance(op, ast.In))
+            if isinstance(op, (ast.Is, ast.IsNot)) and isinstance(right, ast.Constant) and right.value is None:
+                v = self.ev(e.left, env, origin)
+                return ('bool', (v[0] == 'none') == isinstance(op, ast.Is))
+            self.bad('comparison', e)
+        if isinstance(e, ast.Attribute):
+            if isinstance(e.value, ast.Name) and e.value.id == 'self':
+                if e.attr == 'forwarded':
+                    return ('list',) if self.fwd in ('first hop has host', 'first hop lacks host') else ('none',)
+                if table_of(self.f, e) is not None:
+                    self.bad('request table used as a value', e)
+                return ('src', e.attr, origin)
+            v = self.ev(e.value, env, origin)
+            if v[0] == 'hop':
+                if e.attr == 'host':
+                    return ('src', 'Forwarded[%d].host' % v[1], origin) if (self.fwd == 'first hop has host' or v[1] != 0) else ('none',)
+                return ('src', 'Forwarded[%d].%s' % (v[1], e.attr), origin)
+            self.bad('attribute read', e)
+        if isinstance(e, ast.Subscript):
+            h = self.header(e.value, e.slice)
+            if h is not None:
+                if not self.present(h, e):
+                    raise _FHKeyError()
+                if h == 'forwarded':
+                    self.bad('the raw Forwarded header is read here', e)
+                return ('src', 'X-Forwarded-Host', origin)
+            v = self.ev(e.value, env, origin)
+            if v[0] == 'list' and isinstance(e.slice, ast.Constant) and isinstance(e.slice.value, int):
+                return ('hop', e.slice.value)
+            if v[0] == 'list' and isinstance(e.slice, ast.UnaryOp) and isinstance(e.slice.op, ast.USub) and isinstance(e.slice.operand, ast.Constant):
+                return ('hop', -e.slice.operand.value)
+            self.bad('subscript', e)
+        if isinstance(e, ast.Call) and isinstance(e.func, ast.Attribute):
+            if e.func.attr == 'get' and 1 <= len(e.args) <= 2 and not e.keywords:
+                h = self.header(e.func.value, e.args[0])
+                if h is not None:
+                    if h == 'forwarded':
+                        self.bad('the raw Forwarded header is read here', e)
+                    if self.present(h, e):
+                        return ('src', 'X-Forwarded-Host', origin)
+                    return self.ev(e.args[1], env, origin) if len(e.args) == 2 else ('none',)
+            if e.func.attr in _FH_STR_KEEP:
+                v = self.ev(e.func.value, env, origin)
+                if v[0] == 'src':
+                    return v
+        self.bad('operand has a shape this rule cannot read', e)
+
+    def block(self, stmts, env):
+        for s in stmts:
+            if isinstance(s, (ast.Pass,)) or (isinstance(s, ast.Expr) and isinstance(s.value, ast.Constant)):
+                continue
+            if isinstance(s, (ast.Assign, ast.AnnAssign)) and s.value is not None:
+                tgs = s.targets if isinstance(s, ast.Assign) else [s.target]
+                if not all(isinstance(t, ast.Name) for t in tgs):
+                    self.bad('store', s)
+                v = self.ev(s.value, env, s.value)
+                for t in tgs:
+                    env[t.id] = v
+            elif isinstance(s, ast.If):
+                self.block(s.body if self.truthy(self.ev(s.test, env, s.test)) else s.orelse, env)
+            elif isinstance(s, ast.Return):
+                raise _FHReturn(self.ev(s.value, env, s.value) if s.value is not None else ('none',))
+            elif isinstance(s, ast.Try) and not s.finalbody:
+                try:
+                    self.block(s.body, env)
+                except _FHKeyError:
+                    for h in s.handlers:
+                        names = [short(x) for x in (h.type.elts if isinstance(h.type, ast.Tuple) else [h.type])] if h.type is not None else ['Exception']
+                        if any(nm in ('KeyError', 'LookupError', 'Exception', 'BaseException') for nm in names):
+                            self.block(h.body, env)
+                            break
+                    else:
+                        raise
+                else:
+                    self.block(s.orelse, env)
+            else:
+                self.bad('statement', s)
+
+    def result(self):
+        try:
+            self.block(self.f.node.body, {})
+        except _FHReturn as r:
+            return r.value
+        except _FHKeyError:
+            return ('raises', 'KeyError')
+        return ('none',)
+
+
+def r20_forwarded_host_sources(run):
+    """forwarded_host answers from an ordered list of sources -- the host of the first Forwarded element, the
+    X-Forwarded-Host header, the request's own authority -- and the own authority is `netloc` (Host header WITH its
+    port), never `host`: forwarded_uri / forwarded_prefix are composed of it.  Both request classes are evaluated in
+    the 8 worlds {Forwarded absent / without element / first hop with / without host=} x {X-Forwarded-Host present /
+    absent}; in each world the source of the returned text must be the tabled one (so the two stacks agree, world by world).
+    W: ASGI, Host: backend.internal:8080, Forwarded: for=192.0.2.60;proto=https -> forwarded_host 'backend.internal',
+    forwarded_uri 'https://backend.internal/...' while WSGI keeps the port."""
+    p = run.project
+    n = 0
+    for cq in (WSGI_REQ, ASGI_REQ):
+        m = effective_members(p, cq).get('forwarded_host')
+        if m is None or m.func is None:
+            raise AnchorError('%s.forwarded_host not found' % cq)
+        f = m.func
+        run.use(f)
+        bad: Dict[int, dict] = {}
+        for fwd in _FH_FORWARDED:
+            for xfh in (True, False):
+                want = _FH_TABLE[(fwd, xfh)]
+                got = _FwdHostEval(f, fwd, xfh).result()
+                world = 'Forwarded: %s, X-Forwarded-Host %s' % (fwd, 'present' if xfh else 'absent')
+                n += 1
+                if got[0] == 'src' and got[1] == want:
+                    run.ok('%s.forwarded_host answers with %s when %s' % (cq, want, world), f.loc(), '%s [%s]' % (want, world))
+                    continue
+                origin = got[2] if got[0] == 'src' else None
+                text = got[1] if got[0] == 'src' else ('None' if got[0] == 'none' else ' '.join(str(x) for x in got))
+                b = bad.setdefault(id(origin), {'origin': origin, 'wit': []})
+                b['wit'].append('%s: answers with %s, tabled source: %s' % (world, text, want))
+        for b in bad.values():
+            cons = b['origin'] if b['origin'] is not None else 'forwarded_host result'
+            run.fail('%s.forwarded_host takes its value from the tabled source in every world (Forwarded first hop, then X-Forwarded-Host, '
+                     'else the own authority netloc -- never the port-less host)' % cq, f, cons,
+                     where=f.loc(cons) if isinstance(cons, ast.AST) else f.loc(), witness=b['wit'],
+                     runtime_witness="Host: backend.internal:8080 + 'Forwarded: for=192.0.2.60;proto=https': forwarded_host == 'backend.internal' "
+                                     "(port lost) on one stack, 'backend.internal:8080' on the other; forwarded_uri / forwarded_prefix follow")
+    return n
